@@ -151,6 +151,19 @@ var poolCalls = []poolCall{
 		return string(sb.RedactableString())
 	}},
 	{"probe-default", func() string { return string(redact.Sprintf("%v|%v|%d", widthProbe{}, theErr, 3)) }},
+	{"negprec", func() string { return string(redact.Sprintf("%.*d|%-*d|%*.*f", -1000, 5, -7, 6, -3, -2, 1.5)) }},
+	{"wide", func() string { return digest(string(redact.Sprintf("%0120d|%0100x|%+090d|%.100d", 7, -3, -5, 9))) }},
+	{"scribble", func() string {
+		// a caller may do what it likes with the slices the API hands out
+		var sb strings.Builder
+		for _, m := range [][]byte{redact.StartMarker(), redact.EndMarker(), redact.RedactedMarker(), redact.EscapeMarkers([]byte("a‹b")), []byte(redact.EscapeBytes([]byte("x\ny")))} {
+			sb.Write(m)
+			for i := range m {
+				m[i] = 'X'
+			}
+		}
+		return sb.String()
+	}},
 	{"markers", func() string { return string(redact.Sprintf("%s %v", "a‹b›\n", []byte("x›"))) }},
 }
 
